@@ -52,12 +52,17 @@ async def async_map_unordered(
     start_times = {f: t for f in pending}
     end_times = {}
     backups: dict[asyncio.Future, asyncio.Future] = {}
+    # tasks whose twin (original or backup) has already succeeded
+    superseded: set[asyncio.Future] = set()
 
     while pending:
         finished, pending = await asyncio.wait(
             pending, return_when=asyncio.FIRST_COMPLETED, timeout=2
         )
         for task in finished:
+            if task in superseded:
+                # the twin finished in the same round and its result has been used
+                continue
             # TODO: use exception groups in Python 3.11 to handle case of multiple task exceptions
             if task.exception():
                 # if the task has a backup that is not done, or is done with no exception, then don't raise this exception
@@ -80,6 +85,7 @@ async def async_map_unordered(
             if use_backups:
                 backup = backups.get(task, None)
                 if backup:
+                    superseded.add(backup)
                     if backup in pending:
                         pending.remove(backup)
                     del backups[task]
@@ -111,7 +117,7 @@ async def async_map_unordered(
                 tasks.update(new_tasks)
                 pending.update(new_tasks.keys())
                 t = time.monotonic()
-                start_times = {f: t for f in new_tasks.keys()}
+                start_times.update({f: t for f in new_tasks.keys()})
 
 
 async def async_map_dag(
